@@ -1,40 +1,3 @@
 #!/bin/bash
-# Second build variant of a check: the same relation sources compiled against ark-ff with the `asm` feature
-# (workspace harness/asm: intrinsics-based limb primitives; assembly Montgomery mul/square when the CPU has bmi2+adx).
-#   tools/asm_stage.sh <Cxx> <quick|thorough>
-# exit 0 nothing found | 1 VIOLATION printed (replay file carries the suffix -asm) | 2 inconclusive
-set -u
-ROOT="${VERIF_ROOT:-$(cd "$(dirname "$0")/.." && pwd)}"
-ID="$1"; TIER="${2:-quick}"
-CRATE="$(echo "$ID" | tr 'A-Z' 'a-z')asm"
-export CARGO_NET_OFFLINE=true VERIF_ROOT="$ROOT" VH_VARIANT=asm
-unset CARGO_TARGET_DIR
-cd "$ROOT/harness/asm" || exit 2
-# without bmi2/adx the assembly kernels cannot run: build without the target features (the intrinsics paths remain)
-if ! grep -q bmi2 /proc/cpuinfo || ! grep -qw adx /proc/cpuinfo; then export RUSTFLAGS=""; fi
-if ! cargo build --release -p "$CRATE" > "target-build-$CRATE.log" 2>&1; then
-  mkdir -p target; echo "INCONCLUSIVE: asm variant of $ID does not build"; tail -n 20 "target-build-$CRATE.log"; exit 2
-fi
-if [ "$TIER" = "quick" ]; then export VH_CASE_SCALE=2; T=1800; else export VH_CASE_SCALE=1; T=14000; fi
-OUT="$ROOT/harness/asm/target/$CRATE-last.log"
-timeout "$T" "target/release/$CRATE" check --tier "$TIER" --seed "${VERIF_SEED:-0}" --no-evidence > "$OUT" 2>&1
-rc=$?
-grep -E "^(FAILED|VIOLATION|KNOWN-FINDING)" "$OUT" | cut -c1-400
-SUMMARY="$(grep -E "^$ID tier=" "$OUT" | tail -1)"
-echo "asm variant: $SUMMARY"
-python3 - "$ROOT" "$ID" "$SUMMARY" <<'PY'
-import json, re, sys, os
-root, pid, summary = sys.argv[1:4]
-ev_path = os.path.join(root, "evidence", pid + ".json")
-try:
-    ev = json.load(open(ev_path))
-    m = dict(re.findall(r"(\w+)=(\S+)", summary))
-    c = ev["coverage"]
-    c.setdefault("variants", []).append({"variant": "ark-ff feature asm (target features bmi2, adx when available)", "relations": int(m.get("relations", 0)),
-        "cases": int(m.get("cases", 0)), "evaluations": int(m.get("evaluations", 0)), "distinct_nontrivial": int(m.get("distinct_nontrivial", 0))})
-    c["evaluations"] = c.get("evaluations", 0) + int(m.get("evaluations", 0))
-    json.dump(ev, open(ev_path, "w"), indent=1)
-except Exception as e:
-    print("could not merge the asm variant into the evidence:", e)
-PY
-case $rc in 0) exit 0 ;; 1) exit 1 ;; *) echo "INCONCLUSIVE: asm variant of $ID exited with status $rc"; exit 2 ;; esac
+# kept for compatibility: the `asm` build variant, see tools/variant_stage.sh
+exec "$(dirname "$0")/variant_stage.sh" "$1" "${2:-quick}" asm
